@@ -26,7 +26,7 @@ CHECKS = {
         "quick": T(20000, 45), "thorough": T(600000, 600),
         "rule": "one run = generated world + config (every output incl. path templates, facility x level, ident, error_logging, chains) + one exec (success or failure); all sinks watched; "
                 "non-trivial = decision and sink determined by the model; distinct = (output, decision, message-length bucket, fd-1 kind, outcome)",
-        "probes": ["output_devlog", "output_stdout", "output_stderr", "output_file", "output_socket", "output_devtty", "output_devnull", "drop", "empty_or_none", "success_stdout_buffered", "msg_ge_64k"],
+        "probes": ["output_devlog", "output_stdout", "output_stderr", "output_file", "output_socket", "output_devtty", "output_devnull", "drop", "empty_or_none", "success_stdout_buffered", "msg_ge_64k", "fifo_slow_reader"],
     },
 }
 
@@ -91,7 +91,7 @@ CHECKS.update({
         "quick": T(20000, 45), "thorough": T(500000, 600),
         "rule": "one run = generated simulated process state (independent real/effective uid/gid, name tables with gaps, session, ancestor chain, tty none/closed/present with owner, login fallbacks, environment incl. TZ, cwd, host, instant) + two execs whose formats list every data source named in the statement inside <name=...> delimiters; "
                 "each text compared with the value derived from the world; distinct = vector of world classes",
-        "probes": ["all_ids_distinct", "id_without_name", "no_tty", "ebadf", "deleted_cwd", "tz_non_utc", "secure_exec_mode"],
+        "probes": ["all_ids_distinct", "id_without_name", "no_tty", "ebadf", "deleted_cwd", "tz_non_utc", "secure_exec_mode", "child_of_init"],
         "assumptions": ["the kernel is a stub: this decides that each data source asks the right question and renders the answer, not that Linux answers correctly"],
     },
     "C14": {
@@ -107,7 +107,7 @@ CHECKS.update({
         "quick": T(20000, 45), "thorough": T(500000, 600),
         "rule": "one run = simulated ancestor chain of depth 1-12 with awkward names (spaces, parentheses, 15 bytes, prefixes of each other), optionally an unreadable or vanished /proc/<pid>/stat at depth k, and a list of 1-50 names (duplicates, empty items) containing an ancestor's name, only the process's own name, a prefix/extension near miss, or none; "
                 "distinct = (depth, mode, match position, failure depth)",
-        "probes": ["match_deep", "self_only", "unreadable_before_match", "name_with_paren"],
+        "probes": ["match_deep", "self_only", "unreadable_before_match", "name_with_paren", "seven_digit_pids"],
     },
 })
 MANIFEST_TEXT.update({
@@ -162,7 +162,7 @@ CHECKS.update({
         "quick": T(8000, 70), "thorough": T(150000, 900),
         "rule": "one run = history of 2-8 (thorough: 2-30) calls in one simulated process; before each call the config file is rewritten (each option present with probability 1/2, valid and invalid values), emptied, corrupted, damaged (rejected lines next to accepted options), deleted, made unreadable or left alone; "
                 "oracle = differential: call k is re-run as the first call of a pristine library image (.data/.bss restored) in the same simulated OS state and must produce the same records at the same sinks; ASan for double frees; library-attributed live heap must not grow. non-trivial = at least 2 calls; distinct = sequence of config classes",
-        "probes": ["deleted", "unreadable", "corrupted", "emptied", "damaged_with_valid_options"],
+        "probes": ["deleted", "unreadable", "corrupted", "emptied", "damaged_with_valid_options", "header_lost"],
     },
     "C17": {
         "variants": ["asan-ts"], "level": "exploration",
